@@ -19,8 +19,9 @@ TRUSTED = [
     "for members with lawful __eq__/__hash__ is mutual inclusion up to ==",
     "primitives left abstract in the model (every theorem holds for all of them): str.lower, re, user callables of FunctionRestriction, "
     "str(), iflatten_instance, match of identity-equality objects (AlwaysBool, Negate, AnyMatch, EqualityMatch)",
-    "atom.match is a function of the attributes atom.__eq__ compares (cpvstr, op, blocks, negate_vers, use, slot, subslot, slot_operator, "
-    "repo_id): not proved (C04 models atom.match), checked here on differently spelled equal atoms",
+    "atom.__eq__ / _hash are the C02 model (atom.__cmp__(other) == 0, the canonical tuple with cpv.ver_hash_key); atom.match is taken to be a "
+    "function of the atom's canonical form (category, package, operator, PMS value of version+revision, blocker kind, negate_vers, slot, sub-slot, "
+    "slot operator, sorted USE deps, repository): not proved here (C04 models atom.match), checked on differently spelled equal atoms",
     "ver_cmp is taken from the C01 model; version strings are lexed into its structure by the harness",
     "snakeoil GenericEquality (compare getattr(x, attr, sentinel) over __attr_comparison__) and cached_hash as read in snakeoil 0.11",
 ]
@@ -67,7 +68,7 @@ REVS = [None, "", "0", "00", "1", "01", "2"]
 OPS = ["<", "<=", "=", ">=", ">", "~"]
 STR_ATTRS = ["category", "package", "fullver", "slot", "subslot", "repo.repo_id", "nonexistent"]
 SET_ATTRS = ["use", "iuse_stripped"]
-ATOMS = ["a/b", "app/foo", "!a/b", "!!a/b", "a/b[x,y]", "a/b[y,x]", "a/b[x]", "a/b[-x,y]", "a/b[x(+)]", "a/b[x(-)]", "=a/b-1.0", "=a/b-1.00",
+ATOMS = ["=a/b-1.0*", "=a/b-1.00*", "=a/b-1-r1*", "=a/b-1-r01*", "~a/b-1.00", "=a/b-1.0_rc1", "=a/b-1.0_rc01", "a/b", "app/foo", "!a/b", "!!a/b", "a/b[x,y]", "a/b[y,x]", "a/b[x]", "a/b[-x,y]", "a/b[x(+)]", "a/b[x(-)]", "=a/b-1.0", "=a/b-1.00",
          "=a/b-1.0-r0", "~a/b-1.0", ">=a/b-1.0-r1", ">=a/b-1.0-r01", "<a/b-2", "=a/b-1*", "a/b:0", "a/b:0/0", "a/b:0=", "a/b:=", "a/b:*",
          "a/b::repo", "app/foo:1[x,-y]", "!!<app/foo-2:1", "!<app/foo-2:1"]
 DEPSETS = ["a/b c/d", "c/d a/b", "a/b a/b c/d", "x? ( a/b ) c/d", "c/d x? ( a/b )", "|| ( a/b c/d )", "|| ( c/d a/b )", "a/b", "",
@@ -146,7 +147,7 @@ def g_pkg(rng, depth):
         return {"k": "dep", "cls": rng.choice(["CategoryDep", "PackageDep", "SlotDep", "SubSlotDep", "RepositoryDep"]),
                 "s": rng.choice(["app", "a", "foo", "b", "0", "1", "repo"]), "n": rng.random() < 0.3}
     if k == "vm":
-        return dict(g_ver(rng), k="vm")
+        return dict(g_ver(rng), k="vm") if rng.random() < 0.8 else {"k": "vgm", "ver": rng.choice(VERS), "rev": rng.choice(REVS)}
     if k == "staticuse":
         return {"k": k, "false": rng.sample(FLAGS, rng.choice([0, 1, 2])), "true": rng.sample(FLAGS, rng.choice([0, 1, 2]))}
     if k == "usedefault":
@@ -173,8 +174,10 @@ def g_top(rng):
         return "strs", g_value(rng, "strs", 2)
     if r < 0.36:
         return "pair", {"k": "usedef", "m": rng.random() < 0.5, "vals": rng.sample(FLAGS, rng.choice([1, 2])), "n": rng.random() < 0.4}
-    if r < 0.46:
+    if r < 0.44:
         return "pkg", dict(g_ver(rng), k="ver")
+    if r < 0.48:
+        return "pkg", {"k": "verglob", "ver": rng.choice(VERS), "rev": rng.choice(REVS)}
     return "pkg", g_pkg(rng, 2)
 
 
@@ -220,6 +223,13 @@ def variant(rng, d):
             node["ver"] = rng.choice(VERS)
         else:
             node["op"] = rng.choice(OPS)
+    elif k in ("verglob", "vgm"):
+        c = rng.choice(["rev", "rev", "ver"])
+        tag = "verglob_" + c
+        if c == "rev":
+            node["rev"] = rng.choice(REV_ALT[node["rev"]])
+        else:
+            node["ver"] = rng.choice(VERS)
     elif k == "pr":
         c = rng.choice(["move_negate", "move_negate", "im", "attr", "n"])
         tag = "pr_" + c
@@ -343,6 +353,19 @@ CORPUS = [
     ("pkg", {"k": "ver", "op": "=", "ver": "1.0", "rev": None, "n": True}, {"k": "ver", "op": "=", "ver": "1.00", "rev": None, "n": True}),
     ("pkg", {"k": "vm", "op": "<", "ver": "1.0", "rev": None, "n": True}, {"k": "vm", "op": ">=", "ver": "1.0", "rev": None, "n": False}),
     ("pkg", {"k": "vm", "op": "~", "ver": "1.0", "rev": None, "n": True}, {"k": "vm", "op": "~", "ver": "1.0", "rev": None, "n": False}),
+    ("pkg", {"k": "verglob", "ver": "1.0", "rev": "1"}, {"k": "verglob", "ver": "1.0", "rev": "01"}),
+    ("pkg", {"k": "verglob", "ver": "1.0", "rev": None}, {"k": "verglob", "ver": "1.0", "rev": ""}),
+    ("pkg", {"k": "verglob", "ver": "1", "rev": ""}, {"k": "verglob", "ver": "1", "rev": "0"}),
+    ("pkg", {"k": "verglob", "ver": "1.0", "rev": None}, {"k": "verglob", "ver": "1.00", "rev": None}),
+    ("pkg", {"k": "vgm", "ver": "1.0", "rev": "1"}, {"k": "vgm", "ver": "1.0", "rev": "01"}),
+    ("pkg", {"k": "verglob", "ver": "1.0_rc1", "rev": None}, {"k": "ver", "op": "=", "ver": "1.0_rc1", "rev": "", "n": True}),
+    ("pkg", {"k": "verglob", "ver": "1.0", "rev": "1"}, {"k": "ver", "op": "~", "ver": "1.0", "rev": "1", "n": False}),
+    ("pkg", {"k": "atom", "s": "=a/b-1.0", "nv": False}, {"k": "atom", "s": "=a/b-1.00", "nv": False}),
+    ("pkg", {"k": "atom", "s": "=a/b-1*", "nv": False}, {"k": "atom", "s": "=a/b-1-r0*", "nv": False}),
+    ("pkg", {"k": "atom", "s": "=a/b-1.0*", "nv": False}, {"k": "atom", "s": "=a/b-1.00*", "nv": False}),
+    ("pkg", {"k": "atom", "s": "a/b:0", "nv": False}, {"k": "atom", "s": "a/b:0/0", "nv": False}),
+    ("pkg", {"k": "atom", "s": "a/b:0=", "nv": False}, {"k": "atom", "s": "a/b:0", "nv": False}),
+    ("pkg", {"k": "atom", "s": "~a/b-1.0", "nv": False}, {"k": "atom", "s": "~a/b-1.00", "nv": False}),
     ("str", {"k": "func", "f": 0, "n": False}, {"k": "func", "f": 0, "n": False}),
     ("strs", {"k": "flatten", "d": 0, "r": {"k": "contain", "vals": ["x"], "single": True, "all": False, "n": False}, "n": False},
      {"k": "flatten", "d": 0, "r": {"k": "contain", "vals": ["x"], "single": False, "all": False, "n": False}, "n": False}),
@@ -401,7 +424,7 @@ def run(ctx):
                boolean.AtMostOneOfRestriction: "amo", packages.KeyedAndRestriction: "keyed"}
     PCLS = [packages.PackageRestriction, restricts.VersionMatch, restricts.SlotDep, restricts.SubSlotDep, restricts.CategoryDep,
             restricts.PackageDep, restricts.RepositoryDep, restricts.StaticUseDep, packages.PackageRestrictionMulti, restricts.UseDepDefault,
-            values.GetAttrRestriction]
+            values.GetAttrRestriction, restricts.VersionGlobMatch]
     ident = {}      # identity table for opaque things (functions, types, identity-equality objects)
     keep = []
 
@@ -436,6 +459,10 @@ def run(ctx):
             o = restricts._VersionMatch(d["op"], d["ver"], mkrev(d["rev"]), negate=d["n"], **K)
         elif k == "vm":
             o = restricts.VersionMatch(d["op"], d["ver"], mkrev(d["rev"]), negate=d["n"], **K)
+        elif k == "verglob":
+            o = restricts._VersionGlobMatch(d["ver"], mkrev(d["rev"]), **K)
+        elif k == "vgm":
+            o = restricts.VersionGlobMatch(d["ver"], mkrev(d["rev"]), **K)
         elif k == "always":
             o = restriction.AlwaysBool(d["t"], d["b"], **K)
         elif k == "eqmatch":
@@ -496,6 +523,8 @@ def run(ctx):
         if t is restricts._VersionMatch:
             return {"c": "version", "vals": list(o.vals), "d": bool(o.droprev), "n": bool(o.negate), "ver": lex_ver(o.ver),
                     "rev": None if o.rev is None else o.rev.data}
+        if t is restricts._VersionGlobMatch:
+            return {"c": "verglob", "ver": lex_ver(o.ver), "rev": None if o.rev is None else o.rev.data}
         if t is packages.Conditional:
             return {"c": "cond", "attr": list(o._attr_split), "n": bool(o.negate), "r": to_model(o.restriction),
                     "payload": [to_model(c) for c in o.payload]}
@@ -507,7 +536,14 @@ def run(ctx):
         if isinstance(o, DepSet):
             return {"c": "depset", "cs": [to_model(c) for c in o.restrictions]}
         if isinstance(o, atom):
-            return {"c": "atom", "key": [repr(getattr(o, a)) for a in atom.__attr_comparison__], "strong": bool(o.blocks_strongly)}
+            # the attributes atom.__cmp__ / _hash read, in the C02 driver's format
+            return {"c": "atom", "a": {
+                "cat": o.category, "pkg": o.package, "op": o.op,
+                "ver": None if o.version is None else lex_ver(o.version),
+                "rev": None if o.version is None else (o.revision.data if o.revision is not None else ""),
+                "blocks": bool(o.blocks), "strong": bool(o.blocks_strongly), "negate": bool(o.negate_vers),
+                "slot": o.slot, "subslot": o.subslot, "slotop": o.slot_operator,
+                "use": None if o.use is None else list(o.use), "repo": o.repo_id}}
         if t in KIND_OF:
             return {"c": "bool", "k": KIND_OF[t], "t": {None: 0, "values": 1, "package": 2}[o.type], "n": bool(o.negate),
                     "cs": [to_model(c) for c in o.restrictions]}
